@@ -204,6 +204,9 @@ func init() {
 			case 1: // a source named default replaces the built-in one
 				rkey = "app:worker"
 				cfg.Sources = []router.SourceConfig{tagSource("default", rkey)}
+			case 2: // several configured sources; promises are routed by the first of them
+				rkey = "app:worker"
+				cfg.Sources = []router.SourceConfig{tagSource("custom", rkey), tagSource("second", "app:other"), tagSource("third", "app:third")}
 			}
 			s := c.NewSim(cfg, pol)
 			w := &world{s: s, r: c.R, pids: []string{"p0", "p1", "p2"}[:1+c.R.Intn(3)], procs: []string{"w1", "w2"}, w: promiseWeights, rkey: rkey}
